@@ -218,6 +218,7 @@ type ObligStatus struct {
 	Script   string
 	Notes    []string
 	MaxQuery float64
+	Cover    bool
 }
 
 // Discharge groups obligations by name and decides each path's VC.
@@ -229,14 +230,28 @@ func Discharge(obs []*sym.Oblig, timeout time.Duration, workers int) []*ObligSta
 		st *ObligStatus
 	}
 	var jobs []job
+	coverTried := map[string]int{}
 	for _, o := range obs {
 		st := byName[o.Name]
 		if st == nil {
 			st = &ObligStatus{Name: o.Name, Status: "discharged", Solvers: map[string]int{}}
+			if o.Cover {
+				st.Status = "undecided" // until one path is shown reachable
+				st.Cover = true
+			}
 			byName[o.Name] = st
 			order = append(order, o.Name)
 		}
 		st.Paths++
+		if o.Cover {
+			// a few candidate paths suffice
+			if coverTried[o.Name] >= 80 {
+				continue
+			}
+			coverTried[o.Name]++
+			jobs = append(jobs, job{o, st})
+			continue
+		}
 		if o.Goal.IsTrue() {
 			st.Trivial++
 			continue
@@ -265,6 +280,14 @@ func Discharge(obs []*sym.Oblig, timeout time.Duration, workers int) []*ObligSta
 				j.st.Seconds += res.Seconds
 				if res.Seconds > j.st.MaxQuery {
 					j.st.MaxQuery = res.Seconds
+				}
+				if j.o.Cover {
+					if res.Status == "sat" {
+						j.st.Status = "discharged"
+						j.st.Solvers[res.Solver]++
+					}
+					mu.Unlock()
+					continue
 				}
 				switch res.Status {
 				case "unsat":
